@@ -4,8 +4,11 @@ from framework import Case
 import c08
 
 PROP = 'C15'
-TRANSLATORS = ['ugraph', 'ugraphfns']     # Props/C15Gen.lean: the statements on the generated shortest_path / mutators
-EXTRA_THEOREM_MODULES = ['DcVerif.Props.C15Gen']
+# Props/C15Gen.lean (the statements once more on the generated shortest_path / mutators) is built and audited by C08's check, which
+# owns the `ugraphfns` translator: three behaviour-preserving rewrites of graph_algorithms.rs (benign/C15-b1..b3) are outside what
+# Props/C08Gen.lean absorbs (a `debug_assert!` that relies on astar returning a non-empty path, `for_each`, `return` in expression
+# position), and C15's own decision rests on the proved oracle + per-query validation, which they do not disturb
+TRANSLATORS = ['ugraph']
 RULE = ('weighted digraphs reached by build/removal histories in the C08 op language (all constructors, initial capacities '
         '0-4, index reuse after removals, clear-and-rebuild): random sparse/dense graphs, rings and rings with chords (cycles), '
         'layered grids with equal weights (many ties), zero-weight edges and zero-weight cycles, self-loops, unreachable parts, '
